@@ -12,7 +12,7 @@ import numpy as np
 from mc import env  # noqa: F401
 from mc import data, zoo
 from mc.observe import LocalsAtReturn
-from mc.refmodel import priors
+from mc.refmodel import priors, itml_ref
 import metric_learn as ml
 
 PID = 'C11'
@@ -49,6 +49,11 @@ def cases(tier, seed):
     # features in badly matched units (first feature x 2^9, second x 2^-9: exact), with the prior that suits such data
     for g in (0.1, 1.0, 10.0):
         out.append(('ITML/S2*mixed_units/covariance/gamma=%s' % g, ('itml', 'S2*mixed_units', 'covariance', g, b['K'], seed)))
+    # clearly more dissimilar than similar pairs (every second similar pair removed), and the converse
+    for dsn in ('S3u*few_similar', 'S5*few_dissimilar'):
+        for pr in ('identity', 'covariance'):
+            for g in (1.0, 10.0):
+                out.append(('ITML/%s/%s/gamma=%s' % (dsn, pr, g), ('itml', dsn, pr, g, b['K'], seed)))
     return out
 
 
@@ -135,7 +140,15 @@ def run_case(spec):
              'states_judged_for_identity': 0, 'states_ill_conditioned_not_judged': 0, 'converged_states': 0}
     kind, dsn, pr = spec[0], spec[1], spec[2]
     seed = spec[-1]
-    if dsn.endswith('*mixed_units'):
+    if dsn.endswith('*few_similar') or dsn.endswith('*few_dissimilar'):
+        base = data.dataset(dsn.split('*')[0])
+        lab = 1 if dsn.endswith('*few_similar') else -1
+        idx = np.where(base.ypairs == lab)[0]
+        keep = np.setdiff1d(np.arange(len(base.ypairs)), idx[1::2][: max(0, len(idx) // 2)])
+        keep = np.setdiff1d(keep, idx[2::4])          # about a quarter of that kind remains
+        ds = data.scaled(base, 1.0)
+        ds.pairs, ds.ypairs, ds.pairs_idx = base.pairs[keep], base.ypairs[keep], base.pairs_idx[keep]
+    elif dsn.endswith('*mixed_units'):
         base = data.dataset(dsn.split('*')[0])
         Dv = np.ones(base.d)
         Dv[0], Dv[1] = 2.0 ** 9, 2.0 ** -9
@@ -184,6 +197,21 @@ def run_case(spec):
                 M = est.get_mahalanobis_matrix()
                 conv = mi == 3000 and est.n_iter_ < mi - 1
                 certificate(site, rec, M, M0inv, gamma, tr + ['max_iter=%d' % mi], viol, conv, stats)
+                if conv and np.isfinite(M).all():
+                    # black-box oracle (no local variable of the implementation): the converged result is THE optimum
+                    bu, bl = (float(x) for x in est.bounds_)
+                    pv_, nv_ = P[y == 1][:, 0] - P[y == 1][:, 1], P[y == -1][:, 0] - P[y == -1][:, 1]
+                    Aref, lref, pbr, nbr = itml_ref.solve(M0, pv_, nv_, bu, bl, gamma)
+                    r_id, r_sl, gap, growth = itml_ref.certified(M0inv, Aref, lref, pbr, nbr, pv_, nv_, bu, bl, gamma)
+                    if growth <= 1e6 and max(r_id, r_sl) <= 1e-8 and gap == 0:
+                        dev = np.abs(M - Aref).max() / max(np.abs(Aref).max(), 1e-300)
+                        stats['worst_vs_certified_optimum'] = max(stats.get('worst_vs_certified_optimum', 0.0), dev / 1e-6)
+                        stats['converged_states_compared_with_certified_optimum'] = stats.get('converged_states_compared_with_certified_optimum', 0) + 1
+                        if dev > 1e-6:
+                            viol.append(V(site, 'not_the_optimum', 'converged run (n_iter_ = %d): M differs from the KKT-certified optimum of the documented '
+                                          'program by %.3g relative' % (est.n_iter_, dev), tr + ['converged']))
+                    else:
+                        stats['reference_optimum_not_certified'] = stats.get('reference_optimum_not_certified', 0) + 1
                 if bname == 'zero_int' and mi == 1:
                     ef = ml.ITML(prior=prv.copy() if isinstance(prv, np.ndarray) else prv, gamma=gamma, max_iter=1, tol=tol, random_state=1)
                     ef.fit(P.copy(), y.copy(), bounds=np.array([0.0, float(max(2, int(round(hi))))]))
